@@ -76,9 +76,10 @@ impl CustomExecutor for Ex {
     fn poll_local(&self) {}
 }
 
-/// install the executor (once per process)
+/// install the executor (once per process, for every thread: each case runs on its own thread,
+/// and a spawned task goes to the queue of the thread that spawns it)
 pub fn init() {
-    let _ = Executor::init_local_custom_executor(Ex);
+    let _ = Executor::init_custom_executor(Ex);
 }
 
 /// number of tasks spawned since the last reset
